@@ -55,7 +55,7 @@ def run_unit(A, unit, rep, tier):
             rep.context(g.label, True)
             rv = g.nodes[g.exit]["ret"]
             from_entry = any(x.kind == "cattr" and x.args[1] == "_buffer" for x in rv.walk())
-            repoint = [n.id for n in live(g) if n.kind == "data_mut" and n["op"] == "rebind" and recv_like_root(n) and any(x.kind == "cattr" and x.args[1] == "_buffer" for x in n["value"].walk())]
+            repoint = [n.id for n in live(g) if n.kind == "data_mut" and n["op"] == "rebind" and recv_like_root(n) and cattr_origin(n["value"]) is not None and cattr_origin(n["value"]).args[1] == "_buffer"]
             # (g) taking the data from the entry by RE-POINTING the root container at a container that another
             #     object on the same file may have created swaps this object's whole tree: nested handles obtained
             #     before are detached and writes through them are lost
